@@ -1392,9 +1392,15 @@ class TypedBytesTerminated(TypedBytesBase):
         super().__init__(spec, empty_is_none, check_trailing_bytes, lazy=lazy)
 
     def serialize(self, val, writer: BufferWriter, ctx):
-        # Don't write a terminator at all if we got `None`
-        if val is None and self._empty_is_none:
-            return
+        if self._empty_is_none:
+            # Don't write a terminator at all if we got `None`, or a value that would
+            # be read back as `None` because there's nothing in front of the terminator
+            if val is None:
+                return
+            body = BufferWriter(writer.endianness)
+            body.write(self._spec, val, ctx=ctx)
+            if not body.buffer:
+                return
         super().serialize(val, writer, ctx)
 
 
